@@ -12,12 +12,12 @@ ASSUMPTIONS = ["the input graph is valid (extensions symmetric); rows marked ⊥
 
 def run(F, rep):
     rep.engines.update(["E2-DT", "E1"])
-    dt_compress.extender_table(F, rep, "C09.1", graph_route=True)
-    dt_tables.graph_step_table(F, rep, "C09.2")
-    dt_compress.graph_builder_table(F, rep, "C09.3")
-    dt_compress.graph_driver_table(F, rep, "C09.5")
+    rep.run(dt_compress.extender_table, F, rep, "C09.1", graph_route=True)
+    rep.run(dt_tables.graph_step_table, F, rep, "C09.2")
+    rep.run(dt_compress.graph_builder_table, F, rep, "C09.3")
+    rep.run(dt_compress.graph_driver_table, F, rep, "C09.5")
     # "no extension left pointing at a removed or absent node": the pruning the driver relies on, and the link resolution under it
-    dt_graph.find_link_table(F, rep, "C09.6")
-    dt_graph.get_valid_exts_table(F, rep, "C09.6")
-    dt_graph.fix_exts_table(F, rep, "C09.6")
-    dt_graph.sequence_of_path_table(F, rep, "C09.6")
+    rep.run(dt_graph.find_link_table, F, rep, "C09.6")
+    rep.run(dt_graph.get_valid_exts_table, F, rep, "C09.6")
+    rep.run(dt_graph.fix_exts_table, F, rep, "C09.6")
+    rep.run(dt_graph.sequence_of_path_table, F, rep, "C09.6")
